@@ -48,7 +48,7 @@ Proof. vm_compute. repeat split. Qed.
 
 (* each repair is needed on its own: with only the other two in place the witness still fails *)
 Lemma each_repair_needed :
-  refutes (mkFixes false true true) case_f6 = true /\
-  refutes (mkFixes true false true) case_f7 = true /\
-  refutes (mkFixes true true false) case_f12 = true.
+  refutes (mkFixes false true true true) case_f6 = true /\
+  refutes (mkFixes true false true true) case_f7 = true /\
+  refutes (mkFixes true true false true) case_f12 = true.
 Proof. vm_compute. repeat split. Qed.
